@@ -240,7 +240,10 @@ def extra(ctx, exe):
         if s is None:
             bad = (cid, ops, "no stream captured: %s" % lines[-2:])
             break
-        why = py_judge(ops, s)
+        try:
+            why = py_judge(ops, s)
+        except Exception as e:      # a stream the independent decoder cannot even tokenise is a failure of the stream
+            why = "the Python decoder rejects the stream: %s" % e
         if why:
             bad = (cid, ops, why)
             break
